@@ -11,7 +11,7 @@ import numpy as np
 
 from .. import boson, circmon, emumon
 from ..gen import Builder, equivalent_variant
-from .common import drain_into, merge_stats, setup
+from .common import drain_into, merge_stats, setup, too_big
 
 PROPERTY = "C03"
 RULE = ("seeded random circuits (trees with heralded sub-circuits, directly declared heralds incl. in!=out, "
@@ -158,6 +158,9 @@ def run(ctx):
             circmon.drain()
             continue
         circmon.drain()
+        if too_big(c, 16, 5):
+            ctx.count("skipped_size")
+            continue
         sim = emu.Simulator(c)
         k = c.input_modes
         h = c.heralds
